@@ -495,7 +495,7 @@ static int next_token(ts_parser_state_t *tpsp, uint32_t flags)
 		    tpsp->tps_filename, tpsp->tps_line,
 		    tpsp->tps_text);
 	    tpsp->tps_token = T_ERROR;
-	    return 0;
+	    return -1;
 
 	default:
 	    if (isspace(tpsp->tps_char)) {	/* whitespace (not newline) */
